@@ -754,3 +754,12 @@ From BCL Require Import Model.Verify Proofs.VerifyProofs Proofs.Limits Proofs.Di
  ("C19_trace_lists_instructions", "DisasmProofs", "trace_lists_instructions", "the trace is, in order, one (stack, instruction) pair per step; the instruction line is the disassembly line of that pc"),
  ("C19_trace_source", "DisasmProofs", "trace_source", ""),
 ])
+
+# ---- TieSync.v: the synchronisation skeleton of the source is the one Model/Proto.v models ----
+_SYNC = ("""(* the channel / goroutine / mutex operations of the source, regenerated by tools/gentables on every run, are exactly those
+   the transition system of Model/Proto.v was written from (Spec/Pinned.v sync_skeleton) *)
+From Coq Require Import List String.
+From BCL Require Gen.GenTables Spec.Pinned Proofs.TieSync.""",
+         [("%s_sync_skeleton", "TieSync", "tie_sync_skeleton", "")])
+APPEND["C11"] = (_SYNC[0], [("C11_sync_skeleton", "TieSync", "tie_sync_skeleton", "")])
+APPEND["C12"] = (_SYNC[0], [("C12_sync_skeleton", "TieSync", "tie_sync_skeleton", "")])
